@@ -7,7 +7,11 @@ ID = "C01"
 LEAN_MODULE = "Ctrmml.Properties.C01"
 THEOREMS = ["C01_fold_sound", "C01_fold_sound_root", "C01_fold_accepts", "C01_fold0_sound", "C01_fold0_accepts",
             "C01_extract_one_sound", "C01_extract_sound", "C01_extract_accepts", "C01_passes_preserve",
-            "C01_passes_preserve_nodepth", "C01_full_partial"]
+            "C01_passes_preserve_nodepth", "C01_full_partial",
+            # layers 2-3: the executable model of the optimiser performs these rewrites
+            "C01_passesN_preserve_nodepth", "applyMatch_loop_is_step", "applyMatch_sub_is_step", "pass_loop_is_step",
+            "pass_is_step", "optimize_loop_chain", "optimize_chain", "C01_optimize_preserves_partial",
+            "C01_optimize_preserves"]
 LEVEL = "proof"
 STREAM = "opt.final"
 CHUNK = 150
